@@ -184,7 +184,7 @@ func (c *fn) stmt(s ast.Stmt, k kont) string {
 		if s.Tok == token.DEC {
 			op = token.SUB
 		}
-		return c.update(s.X, func(old cx) cx { return c.arith(s, op, old, one, c.info.TypeOf(s.X)) }, k)
+		return c.update(s.X, func(old cx) cx { return c.arith(s, op, old, one, c.tyOf(s.X)) }, k)
 	case *ast.DeclStmt:
 		return c.declStmt(s, k)
 	case *ast.ExprStmt:
@@ -603,7 +603,7 @@ func (c *fn) switchStmt(s *ast.SwitchStmt, k kont) string {
 			if s.Tag == nil {
 				return chain("", nil)
 			}
-			tagT := c.info.TypeOf(s.Tag)
+			tagT := c.tyOf(s.Tag)
 			return c.bind(c.expr(s.Tag), "tag", func(tv string) string {
 				if !isSimpleTerm(tv) {
 					t := c.fresh("tag")
@@ -815,7 +815,7 @@ func (c *fn) checkClosed(n ast.Node, text string, params []string) {
 }
 
 func (c *fn) rangeStmt(s *ast.RangeStmt, k kont) string {
-	xt := resolve(c.info.TypeOf(s.X), c.sub)
+	xt := resolve(c.tyOf(s.X), c.sub)
 	kind := c.g.kind(xt, c.sub)
 	keyObj, valObj := types.Object(nil), types.Object(nil)
 	getVar := func(e ast.Expr) types.Object {
@@ -1092,7 +1092,7 @@ func (c *fn) exprStmt(s *ast.ExprStmt, k kont) string {
 			switch b.Name() {
 			case "delete":
 				m := call.Args[0]
-				mt := resolve(c.info.TypeOf(m), c.sub).Underlying().(*types.Map)
+				mt := resolve(c.tyOf(m), c.sub).Underlying().(*types.Map)
 				eqb := c.g.eqbFor(mt.Key(), c.sub)
 				key := c.exprAs(call.Args[1], mt.Key())
 				return c.bind(key, "key", func(kv string) string {
@@ -1204,7 +1204,7 @@ func (c *fn) lhsType(l ast.Expr) types.Type {
 		}
 		return nil
 	}
-	return c.info.TypeOf(l)
+	return c.tyOf(l)
 }
 
 // checkTupleRepr refuses the use of a multi-valued call whose i-th result goes
@@ -1213,7 +1213,7 @@ func (c *fn) lhsType(l ast.Expr) types.Type {
 // one), and on the components of a tuple the translation does not insert the
 // conversion.
 func (c *fn) checkTupleRepr(n ast.Node, call ast.Expr, want func(i int) types.Type) {
-	tup, ok := c.info.TypeOf(unparen(call)).(*types.Tuple)
+	tup, ok := c.tyOf(unparen(call)).(*types.Tuple)
 	if !ok {
 		return
 	}
@@ -1328,12 +1328,12 @@ func (c *fn) assignStmt(s *ast.AssignStmt, k kont) string {
 		}
 		rhs := c.expr(s.Rhs[0])
 		return c.bind(rhs, "r", func(rv string) string {
-			return c.update(s.Lhs[0], func(old cx) cx { return c.arith(s, op, old, cx{s: rv}, c.info.TypeOf(s.Lhs[0])) }, k)
+			return c.update(s.Lhs[0], func(old cx) cx { return c.arith(s, op, old, cx{s: rv}, c.tyOf(s.Lhs[0])) }, k)
 		})
 	}
 	// dropped values (loggers, contexts)
 	if len(s.Lhs) == 1 && len(s.Rhs) == 1 {
-		if t := c.info.TypeOf(s.Lhs[0]); t != nil && c.g.kind(t, c.sub) == kDropped {
+		if t := c.tyOf(s.Lhs[0]); t != nil && c.g.kind(t, c.sub) == kDropped {
 			if call, ok := unparen(s.Rhs[0]).(*ast.CallExpr); ok {
 				return c.dropCall(call, k)
 			}
@@ -1397,7 +1397,7 @@ func (c *fn) assignStmt(s *ast.AssignStmt, k kont) string {
 		})
 		tuple = c.call(r)
 	case *ast.IndexExpr:
-		mt, ok := resolve(c.info.TypeOf(r.X), c.sub).Underlying().(*types.Map)
+		mt, ok := resolve(c.tyOf(r.X), c.sub).Underlying().(*types.Map)
 		if !ok || len(s.Lhs) != 2 {
 			c.fail(s, "comma-ok form on something that is not a map")
 		}
@@ -1411,7 +1411,7 @@ func (c *fn) assignStmt(s *ast.AssignStmt, k kont) string {
 			c.fail(s, "comma-ok form with %d variables", len(s.Lhs))
 		}
 		if r.Type != nil && c.g.isOpaqueIface(c.typeOf(r.X), c.sub) {
-			tt := resolve(c.info.TypeOf(r.Type), c.sub)
+			tt := resolve(c.tyOf(r.Type), c.sub)
 			if !c.g.isOpaqueIface(tt, c.sub) || c.g.kind(tt, c.sub) != kNilable {
 				c.fail(r, "type assertion of an interface value to %s: the target must be an interface type declared Opaque and Nilable", types.TypeString(tt, nil))
 			}
@@ -1440,7 +1440,7 @@ func (c *fn) rhsFor(lhs, rhs ast.Expr) cx {
 		}
 		return c.exprForVar(c.objOf(id), rhs)
 	}
-	return c.exprAs(rhs, c.info.TypeOf(lhs))
+	return c.exprAs(rhs, c.tyOf(lhs))
 }
 
 func (c *fn) assignOne(s *ast.AssignStmt, lhs, rhs ast.Expr, k kont) string {
@@ -1489,7 +1489,7 @@ func (c *fn) store(lhs ast.Expr, f func(old cx) cx, k kont) string {
 			c.fail(l, "assignment to a promoted field")
 		}
 		// the container: a struct value (any local) or a locally created pointer held by value
-		xt := resolve(c.info.TypeOf(l.X), c.sub)
+		xt := resolve(c.tyOf(l.X), c.sub)
 		var rec *recInfo
 		container := l.X
 		if p, ok := xt.(*types.Pointer); ok {
@@ -1540,7 +1540,7 @@ func (c *fn) store(lhs ast.Expr, f func(old cx) cx, k kont) string {
 		}
 		return c.store(id, f, k)
 	case *ast.IndexExpr:
-		mt, ok := resolve(c.info.TypeOf(l.X), c.sub).Underlying().(*types.Map)
+		mt, ok := resolve(c.tyOf(l.X), c.sub).Underlying().(*types.Map)
 		if !ok {
 			c.fail(l, "assignment to a slice element is not supported")
 		}
@@ -1696,7 +1696,7 @@ func (c *fn) typeSwitchStmt(s *ast.TypeSwitchStmt, k kont) string {
 							}
 							continue
 						}
-						t := resolve(c.info.TypeOf(te), c.sub)
+						t := resolve(c.tyOf(te), c.sub)
 						if xk == kError {
 							star := ""
 							et := t
